@@ -156,6 +156,9 @@ def run(S, tier, rep):
     from .simtools import parallel_over
     cfgs = [cfg for kind in ("2d", "3d", "passive") for cfg in sim_configs(kind, tier)]
     parallel_over(S, rep, "sa.props.c01", "check_config", cfgs)
+    from .c10 import wrappers_forward_options
+    wrappers_forward_options(S, rep, rule="C01.w", family_root="FlowSimulator", min_found=3)
+    rep.require_min("C01.w", 3)
     rep.note("configurations", len(cfgs))
     rep.require_min("C01.a", 60)
     rep.require_min("C01.d", 15)
